@@ -51,6 +51,22 @@ def gen_cases(rng, tier):
             c = tc.thr_case(rng, True)
         c["targets"] = [enc(t) for t in rng.sample(EXTREMES, 4)]
         cases.append(c)
+    # the subclass FraudScores on scores in [0, 1] that include the ends of that range exactly
+    for _ in range({"quick": 40, "thorough": 400, "search": 150}[tier]):
+        c = tc.thr_case(rng, True)
+        n1, n2 = rng.randint(1, 6), rng.randint(1, 6)
+        pool = [Fraction(k_, 8) for k_ in range(9)]
+        c["pos"] = [enc(x) for x in (rng.sample(pool, min(n1, 9)))]
+        c["neg"] = [enc(x) for x in (rng.sample(pool, min(n2, 9)))]
+        if rng.random() < 0.7:
+            tgt = rng.choice(["pos", "neg"])
+            c[tgt][0] = enc(Fraction(rng.choice([0, 1])))
+        c["ec"] = "pos"
+        c["cls"] = "fraud"
+        c["dtype"] = "float64"
+        c.pop("dtype_pos", None), c.pop("dtype_neg", None)
+        c["targets"] = [enc(t) for t in rng.sample(EXTREMES, 4)]
+        cases.append(c)
     # targets strictly beyond the scale on arbitrary doubles, linear: both neighbours clip to the end sample s and the
     # interpolation la*s + (1-la)*s rounds (sometimes inwards) before the end-of-range rule replaces it
     for _ in range({"quick": 160, "thorough": 1500, "search": 600}[tier]):
